@@ -37,13 +37,20 @@ pub struct EncodingFile {
 }
 
 impl EncodingFile {
+    /// Bytes left between the cursor position and the end of the input.
+    fn remaining(cursor: &Cursor<&[u8]>) -> usize {
+        let pos = usize::try_from(cursor.position()).unwrap_or(usize::MAX);
+        cursor.get_ref().len().saturating_sub(pos)
+    }
+
     /// Parse `CKey` pages from cursor
     fn parse_ckey_pages(
         cursor: &mut Cursor<&[u8]>,
         header: &EncodingHeader,
         ckey_index: &[IndexEntry],
     ) -> Result<Vec<Page<CKeyPageEntry>>, EncodingError> {
-        let mut ckey_pages = Vec::with_capacity(header.ckey_page_count as usize);
+        // One page per index entry; the index length is already bounded by the input.
+        let mut ckey_pages = Vec::with_capacity(ckey_index.len());
         let ckey_page_size = header.ckey_page_size();
         let ckey_hash_size = header.ckey_hash_size;
         let ekey_hash_size = header.ekey_hash_size;
@@ -52,6 +59,10 @@ impl EncodingFile {
         let min_entry_size = 1 + 5 + ckey_hash_size as u64;
 
         for index in ckey_index {
+            // Do not allocate a page the remaining input cannot fill.
+            if ckey_page_size > Self::remaining(cursor) {
+                return Err(std::io::Error::from(std::io::ErrorKind::UnexpectedEof).into());
+            }
             let mut page_data = vec![0u8; ckey_page_size];
             cursor.read_exact(&mut page_data)?;
 
@@ -112,7 +123,8 @@ impl EncodingFile {
         header: &EncodingHeader,
         ekey_index: &[IndexEntry],
     ) -> Result<Vec<Page<EKeyPageEntry>>, EncodingError> {
-        let mut ekey_pages = Vec::with_capacity(header.ekey_page_count as usize);
+        // One page per index entry; the index length is already bounded by the input.
+        let mut ekey_pages = Vec::with_capacity(ekey_index.len());
         let ekey_page_size = header.ekey_page_size();
         let ekey_hash_size = header.ekey_hash_size;
 
@@ -120,6 +132,10 @@ impl EncodingFile {
         let min_entry_size = ekey_hash_size as u64 + 4 + 5;
 
         for index in ekey_index {
+            // Do not allocate a page the remaining input cannot fill.
+            if ekey_page_size > Self::remaining(cursor) {
+                return Err(std::io::Error::from(std::io::ErrorKind::UnexpectedEof).into());
+            }
             let mut page_data = vec![0u8; ekey_page_size];
             cursor.read_exact(&mut page_data)?;
 
@@ -236,12 +252,19 @@ impl EncodingFile {
         header.validate()?;
 
         // Read ESpec table (comes right after header per CASC specification)
+        // Sizes and counts below come from the (untrusted) header: never allocate or
+        // reserve more than the remaining input can hold.
+        if header.espec_block_size as usize > Self::remaining(&cursor) {
+            return Err(std::io::Error::from(std::io::ErrorKind::UnexpectedEof).into());
+        }
         let mut espec_data = vec![0u8; header.espec_block_size as usize];
         cursor.read_exact(&mut espec_data)?;
         let espec_table = ESpecTable::parse(&espec_data)?;
 
         // Read CKey index
-        let mut ckey_index = Vec::with_capacity(header.ckey_page_count as usize);
+        // An index entry is 32 bytes (first key + page checksum).
+        let mut ckey_index =
+            Vec::with_capacity((header.ckey_page_count as usize).min(Self::remaining(&cursor) / 32));
 
         for _ in 0..header.ckey_page_count {
             // Read index entry manually to avoid binrw issues
@@ -256,7 +279,8 @@ impl EncodingFile {
         let ckey_pages = Self::parse_ckey_pages(&mut cursor, &header, &ckey_index)?;
 
         // Read EKey index
-        let mut ekey_index = Vec::with_capacity(header.ekey_page_count as usize);
+        let mut ekey_index =
+            Vec::with_capacity((header.ekey_page_count as usize).min(Self::remaining(&cursor) / 32));
         for _ in 0..header.ekey_page_count {
             // Read index entry manually to avoid binrw issues
             let mut first_key = [0u8; 16];
